@@ -191,7 +191,7 @@ def check(ctx):
     CRITS = [("erm", lambda: nn.EntropicRiskMeasure(1.0)), ("es", lambda: nn.ExpectedShortfall(0.5)), ("eloss", lambda: nn.EntropicLoss(2.0)),
              ("qcvar", lambda: nn.QuadraticCVaR(2.0)), ("oce", lambda: OCE(exp_utility)), ("iso", lambda: Shifted(nn.IsoelasticLoss(0.5), 10.0)),
              ("isolog", lambda: Shifted(nn.IsoelasticLoss(1.0), 10.0))]
-    for it in range(35 if ctx.tier == "quick" else 350):
+    for it in range(60 if ctx.tier == "quick" else 450):
         cname, mk_crit = CRITS[it % len(CRITS)]
         crit = mk_crit()
         stateful = g.chance(0.5)
